@@ -1128,6 +1128,22 @@ def analyse_wait_helper(ctx: Ctx, h: FuncInfo) -> Optional[WaitHelper]:
         tmo = wait_call.args[1]
     if tmo is not None and not (isinstance(tmo, ast.Constant) and tmo.value is None):
         notes.append("TIMEOUT: " + norm_src(tmo)[:60])
+    # the helper waits ONCE and hands back what that wait found: a second wait (a loop around it, a second call of the primitive, a
+    # call of the helper itself or of its sibling) keeps the scheduler blocked after a completion it asked to be woken up for
+    n_waits = 0
+    for n in iter_own_nodes(h.node):
+        if isinstance(n, ast.Call):
+            q = T.resolve_callee(h, n) or ""
+            if q in ("ext:concurrent.futures.wait", "ext:asyncio.wait"):
+                n_waits += 1
+                from .ctx import enclosing_stmt_chain
+
+                if any(isinstance(x, (ast.While, ast.For, ast.AsyncFor)) for x in enclosing_stmt_chain(h.node, n)):
+                    notes.append("REWAIT: the wait primitive is inside a loop")
+            elif q == h.qualname:
+                notes.append("REWAIT: " + norm_src(n)[:80])
+    if n_waits > 1:
+        notes.append(f"REWAIT: {n_waits} calls of the wait primitive")
     return WaitHelper(h, kind, p_running, p_mode, const_mode, p_graph, p_runnable, ret_index, early, wait_call,
                       awaited, done_loop, checks, before, removes, unions, notes)
 
